@@ -467,3 +467,44 @@ def test_c17_pointer_arguments_bytearray_buffer_and_byte_order():
     assert xa[0] == 42.0
     with pytest.raises(TypeError):
         c2.kernels.setfirst(x=np.array([1.0, 2.0], dtype=">f8"), v=1.0)
+
+
+def test_c19_nested_hybrid_with_renamed_field_round_trips():
+    class InR(xo.HybridClass):
+        _xofields = {"a": xo.Int64}
+        _rename = {"a": "alpha"}
+
+    class OutR2(xo.HybridClass):
+        _xofields = {"inner": InR}
+
+    o = OutR2(inner=InR(alpha=3))
+    assert OutR2.from_dict(o.to_dict()).inner.alpha == 3
+
+
+def test_narrow_numpy_integers_everywhere():
+    b = ctx.new_buffer(capacity=np.uint8(200))
+    assert b.allocate(150) == 0 and b.allocate(100) >= 150
+    s = xo.String(np.int64(5))
+    assert s.to_str() == ""
+
+    class PP(xo.Struct):
+        arr = xo.Float64[4]
+        e = xo.Float64
+
+    buf = ctx.new_buffer(512)
+    p = PP(arr=None, e=5, _buffer=buf, _offset=np.int8(96))
+    assert p.e == 5.0 and PP._from_buffer(buf, 96).e == 5.0
+    n = np.int64(3)
+
+    class SS(xo.Struct):
+        a = xo.Float64[(n,)]
+        b = xo.Float64
+
+    assert type(SS.b.offset) is int
+
+
+def test_c11_refused_list_update_of_scalar_array():
+    a = xo.Int64[3]([1, 2, 3])
+    with pytest.raises(ValueError):
+        a._update([7, [1, 2], 9])
+    assert list(a.to_nparray()) == [1, 2, 3]
